@@ -694,6 +694,11 @@ async fn sut_server_accept(
     );
     let decision = s(scn, "decision");
     let extra = str_pairs(scn.get("extra"));
+    // the application may take its time to decide (the connection can end meanwhile)
+    let delay = u(scn, "decide_delay_ms", 0);
+    if delay > 0 {
+        tokio::time::sleep(Duration::from_millis(delay)).await;
+    }
     match decision {
         "forbidden" => {
             req.forbidden().await;
@@ -1029,14 +1034,24 @@ async fn read_to_end(
     bufsize: usize,
     limit: usize,
     ms: u64,
+    quiet: Option<(usize, u64)>,
 ) -> (Vec<u8>, Value, Vec<usize>) {
     let mut all = Vec::new();
     let mut sizes = Vec::new();
     let mut buf = vec![0u8; bufsize.max(1)];
-    let deadline = tokio::time::Instant::now() + Duration::from_millis(ms);
+    let mut deadline = tokio::time::Instant::now() + Duration::from_millis(ms);
+    let mut shortened = false;
     let end = loop {
         if all.len() >= limit {
             break json!({"k": "limit"});
+        }
+        // `quiet = (want, grace)`: once `want` bytes have arrived only `grace` more ms are spent
+        // looking for anything further (the long budget is for slow delivery, not for silence)
+        if let Some((want, grace)) = quiet {
+            if !shortened && all.len() >= want {
+                shortened = true;
+                deadline = deadline.min(tokio::time::Instant::now() + Duration::from_millis(grace));
+            }
         }
         let want = buf.len().min(limit - all.len());
         let res = match r {
@@ -1205,14 +1220,18 @@ async fn conn_op(
             let mut last = json!("budget");
             // give up after `idle_ms` without a new stream (other acceptors may have taken them all)
             let idle = Duration::from_millis(u(&step, "idle_ms", 1500));
+            // `pure`: every accept is one uninterrupted await (never re-polled by a timeout), the
+            // way an application task blocked in accept behaves; the caller takes exactly `n`
+            let pure = step.get("pure").and_then(|v| v.as_bool()).unwrap_or(false);
             let mut last_progress = tokio::time::Instant::now();
             while got < n && tokio::time::Instant::now() < deadline {
-                if tokio::time::Instant::now() - last_progress > idle {
+                if !pure && tokio::time::Instant::now() - last_progress > idle {
                     last = json!("idle");
                     break;
                 }
                 let slice = match cancel {
                     Some(c) => Duration::from_millis(c),
+                    None if pure => deadline - tokio::time::Instant::now(),
                     None => (deadline - tokio::time::Instant::now()).min(idle),
                 };
                 if op == "accept_n_uni" {
@@ -1312,7 +1331,8 @@ async fn stream_op(log: Arc<Log>, who: String, streams: Shared<Streams>, step: V
                     let bufsize = u(&step, "buf", 4096) as usize;
                     let limit = u(&step, "limit", 64 << 20) as usize;
                     let prior = streams.lock().await.roff.get(&k).copied().unwrap_or(0);
-                    let (all, end, sizes) = read_to_end(&mut r, bufsize, limit, ms).await;
+                    let quiet = step.get("want").and_then(|v| v.as_u64()).map(|w| (w as usize, u(&step, "grace_ms", 80)));
+                    let (all, end, sizes) = read_to_end(&mut r, bufsize, limit, ms, quiet).await;
                     streams.lock().await.roff.insert(k.clone(), prior + all.len());
                     m.insert("prior".into(), json!(prior));
                     data_fields(&mut m, &all);
@@ -1758,6 +1778,20 @@ async fn run_step(w: &mut World, step: &Value) {
                 m.insert("res".into(), json!("nohandle"));
             }
             w.log.emit(&who, "op_done", m);
+        }
+        (_, "settle_stopped") => {
+            // barrier, not an operation under judgement: wait until the sending side has learnt
+            // of a stop (or the stream ended otherwise), so that the next step finds a settled state
+            let k = key(&who, &tag);
+            let h = w.streams.lock().await.send.remove(&k);
+            let mut settled = false;
+            if let Some(mut sx) = h {
+                if let SendH::App(x) = &mut sx {
+                    settled = timeout(Duration::from_millis(u(step, "ms", 3000)), x.stopped()).await.is_ok();
+                }
+                w.streams.lock().await.send.insert(k, sx);
+            }
+            w.log.emit(&who, "barrier", fields! {"tag" => tag, "settled" => settled});
         }
         (_, "drop_stream") => {
             let k = key(&who, &tag);
